@@ -64,6 +64,14 @@ Theorem C06_second_run_satisfiable :
 Proof. exact wf_second_run_example. Qed.
 Print Assumptions C06_second_run_satisfiable.
 
+(* a project listed among its own requirers (self-referential extra): an edge like any other, inside the
+   theorems for all 24 option sets *)
+Theorem C06_self_edge_satisfiable :
+  forallb (fun o => wf_auto o self_view) all_opts = true /\
+  In ("frame", "Frame", ["io"; "viz"], "", ["all"]) (edges self_view).
+Proof. exact self_edge_example. Qed.
+Print Assumptions C06_self_edge_satisfiable.
+
 (* the view may be given in any order (pins, requirers, extras): the writer sorts, the loader
    returns the canonical form *)
 Theorem C06_roundtrip_multi_any_order :
